@@ -85,3 +85,161 @@ func init() {
 		})
 	}
 }
+
+// ---------- bech32 (BIP-173 checksum) ----------
+
+const bech32Charset = "qpzry9x8gf2tvdw0s3jn54khce6mua7l"
+
+var bech32Gen = []int{0x3b6a57b2, 0x26508e6d, 0x1ea119fa, 0x3d4233dd, 0x2a1462b3}
+
+func bech32Polymod(values []int) int {
+	chk := 1
+	for _, v := range values {
+		b := chk >> 25
+		chk = (chk&0x1ffffff)<<5 ^ v
+		for i := 0; i < 5; i++ {
+			if (b>>uint(i))&1 == 1 {
+				chk ^= bech32Gen[i]
+			}
+		}
+	}
+	return chk
+}
+
+func bech32HrpExpand(hrp string) []int {
+	v := make([]int, 0, len(hrp)*2+1)
+	for i := 0; i < len(hrp); i++ {
+		v = append(v, int(hrp[i]>>5))
+	}
+	v = append(v, 0)
+	for i := 0; i < len(hrp); i++ {
+		v = append(v, int(hrp[i]&31))
+	}
+	return v
+}
+
+func bech32EncodeConcrete(hrp string, data []byte) (string, bool) {
+	values := bech32HrpExpand(hrp)
+	for _, d := range data {
+		if d >= 32 {
+			return "", false
+		}
+		values = append(values, int(d))
+	}
+	values = append(values, 0, 0, 0, 0, 0, 0)
+	pm := bech32Polymod(values) ^ 1
+	out := []byte(hrp + "1")
+	for _, d := range data {
+		out = append(out, bech32Charset[d])
+	}
+	for i := 0; i < 6; i++ {
+		out = append(out, bech32Charset[(pm>>uint(5*(5-i)))&31])
+	}
+	return string(out), true
+}
+
+func bech32DecodeConcrete(bech string) (string, []byte, bool) {
+	if len(bech) < 8 || len(bech) > 90 {
+		return "", nil, false
+	}
+	hasLower, hasUpper := false, false
+	for i := 0; i < len(bech); i++ {
+		c := bech[i]
+		if c < 33 || c > 126 {
+			return "", nil, false
+		}
+		if c >= 'a' && c <= 'z' {
+			hasLower = true
+		}
+		if c >= 'A' && c <= 'Z' {
+			hasUpper = true
+		}
+	}
+	if hasLower && hasUpper {
+		return "", nil, false
+	}
+	lb := []byte(bech)
+	for i, c := range lb {
+		if c >= 'A' && c <= 'Z' {
+			lb[i] = c + 32
+		}
+	}
+	bech = string(lb)
+	one := -1
+	for i := len(bech) - 1; i >= 0; i-- {
+		if bech[i] == '1' {
+			one = i
+			break
+		}
+	}
+	if one < 1 || one+7 > len(bech) {
+		return "", nil, false
+	}
+	hrp, data := bech[:one], bech[one+1:]
+	dec := make([]byte, len(data))
+	values := bech32HrpExpand(hrp)
+	for i := 0; i < len(data); i++ {
+		idx := -1
+		for k := 0; k < 32; k++ {
+			if bech32Charset[k] == data[i] {
+				idx = k
+			}
+		}
+		if idx < 0 {
+			return "", nil, false
+		}
+		dec[i] = byte(idx)
+		values = append(values, idx)
+	}
+	if bech32Polymod(values) != 1 {
+		return "", nil, false
+	}
+	return hrp, dec[:len(dec)-6], true
+}
+
+func init() {
+	reg := func(name string, f intrinsic) { intrinsics[name] = f }
+	const pkg = "github.com/massnetorg/mass-core/massutil/bech32"
+	reg(pkg+".Encode", func(m *Machine, a []Value) Value {
+		hrp := concStr(m, a[0], "bech32 hrp")
+		bs := m.sliceBytes(a[1].(SliceVal))
+		if cb, ok := allConst(bs); ok {
+			s, ok := bech32EncodeConcrete(hrp, cb)
+			if !ok {
+				return TupleVal{StrVal{}, m.newError("bech32: invalid data byte")}
+			}
+			return TupleVal{StrVal{S: s}, IfaceVal{}}
+		}
+		// every 5-bit group must be < 32
+		conds := make([]*smt.Term, len(bs))
+		for i, b := range bs {
+			if m.IntMode() {
+				conds[i] = smt.ILt(b, smt.IntConstI(32))
+			} else {
+				conds[i] = smt.BvUlt(b, smt.BVConst(8, 32))
+			}
+		}
+		if !m.Branch(smt.And(conds...)) {
+			return TupleVal{StrVal{}, m.newError("bech32: invalid data byte")}
+		}
+		return TupleVal{StrVal{Abs: &AbsStr{Ctor: "bech32:" + hrp, Args: bs}}, IfaceVal{}}
+	})
+	reg(pkg+".Decode", func(m *Machine, a []Value) Value {
+		s := a[0].(StrVal)
+		if s.Abs != nil {
+			if len(s.Abs.Ctor) < 7 || s.Abs.Ctor[:7] != "bech32:" {
+				m.unsupported("bech32.Decode of a %s string", s.Abs.Ctor)
+			}
+			return TupleVal{StrVal{S: s.Abs.Ctor[7:]}, m.bytesSlice(append([]*smt.Term(nil), s.Abs.Args...)), IfaceVal{}}
+		}
+		c, ok := s.Concrete()
+		if !ok {
+			m.unsupported("bech32.Decode of a symbolic plain string")
+		}
+		hrp, data, ok := bech32DecodeConcrete(c)
+		if !ok {
+			return TupleVal{StrVal{}, SliceVal{}, m.newError("bech32: decode failed")}
+		}
+		return TupleVal{StrVal{S: hrp}, m.bytesSlice(m.constBytes(data)), IfaceVal{}}
+	})
+}
